@@ -6,6 +6,7 @@
 //     ops   `-` or '/'-separated:  U L T R C I  S<sx>,<sy>  B<x0>,<y0>,<w>,<h>   coordinate transformations
 //                                  N<n>   nth_channel_view (homogeneous kinds, anywhere in the list)
 //                                  K<k>   kth_channel_view<k>   (last)      X  color_converted_view with a channel-inverting converter (last)
+//                                  Y      color_converted_view<value_type of the view> with the same converter (last): returns the view itself
 //   -> `w h | tag addr  tag addr ... | start len  start len ...`
 //        tag  = identity tag decoded from the pixel read through the derived view (source pixel (x,y) holds y*W+x+1, split over channels)
 //        addr = position of the derived view's x-iterator at (x,y), memory units relative to the source's first byte
@@ -197,6 +198,10 @@ template <class K, class V> void walk(V const& v, std::vector<Xf> const& xs, siz
         break;
     case 'X':
         if constexpr (K::canx && gil::num_channels<V>::value == 3) f(gil::color_converted_view<gil::bgr8_pixel_t>(v, inv_cc()));
+        else f.out = "bad-op";
+        break;
+    case 'Y':     // destination pixel type = the view's own value type: color_converted_view returns the source view (nothing is converted)
+        if constexpr (K::canx && gil::num_channels<V>::value == 3) f(gil::color_converted_view<typename V::value_type>(v, inv_cc()));
         else f.out = "bad-op";
         break;
     default: f.out = "bad-xform";
